@@ -5,6 +5,7 @@ package nutsdb
 
 import (
 	"sync"
+	"sync/atomic"
 )
 
 const verifEnabled = true
@@ -129,4 +130,19 @@ func VerifActiveFree(db *DB) int64 {
 		return -1
 	}
 	return db.opt.SegmentSize - db.ActiveFile.ActualSize
+}
+
+// ---- virtual clock for expiry decisions ----
+
+var verifClockVal int64
+
+// VerifSetClock makes IsExpired use sec (Unix seconds) as the current time; 0 restores the wall clock.
+// Only the expiry test reads it: timestamps stamped by Put and transaction ids keep using the wall clock.
+func VerifSetClock(sec int64) { atomic.StoreInt64(&verifClockVal, sec) }
+
+func verifClock(now int64) int64 {
+	if v := atomic.LoadInt64(&verifClockVal); v != 0 {
+		return v
+	}
+	return now
 }
